@@ -699,7 +699,7 @@ def run(P, R, tier):
     w5 = c05.account_writers(P, Remap(R, {}))
     c05.account_copy(P, Remap(R, {'C05.BND.1': 'C08.BND.3'}), w5)
     # a late reply for an earlier holder of an id is junk: instances are told apart by a serial that does not repeat
-    c04.serial_writers(P, Remap(R, {'C04.WMC.2': 'C08.WMC.4'}))
+    c04.serial_writers(P, Remap(R, {'C04.WMC.2': 'C08.WMC.4'}), c04.reader_is_canonical(P))
     # an unrecognised reply text is dropped, not booked as the service's final answer
     from . import c02
     c02.release_recognised(P, R, cl4, 'C08.GRD.3')
